@@ -153,6 +153,15 @@ var l2CorpusPG = []corpusStmt{
 	{":many", "WITH Recent AS (SELECT id, name FROM authors) SELECT Recent.* FROM Recent", nil, nil, nil},
 	{":one", "UPDATE Authors SET name = $1 WHERE id = $2 RETURNING Authors.*", nil, nil, nil},
 	{":many", "SELECT A.Name, A.ID FROM authors A WHERE A.Bio = $1", nil, nil, nil},
+	// JOIN … USING: the join column is merged for unqualified references, both copies stay reachable by qualifier
+	{":many", "SELECT * FROM authors JOIN books USING (id)", nil, nil, nil},
+	{":many", "SELECT a.*, b.* FROM authors a JOIN books b USING (id)", nil, nil, nil},
+	{":many", "SELECT id, name, title FROM authors JOIN books USING (id)", nil, nil, nil},
+	{":many", "SELECT a.id, b.id, title FROM authors a JOIN books b USING (id) WHERE a.name = $1", nil, nil, nil},
+	{":many", "SELECT id FROM authors JOIN books USING (id) JOIN venues ON venues.id = books.author_id", nil, nil, nil},
+	{":many", "SELECT id FROM authors JOIN books USING (id), venues", nil, nil, nil},
+	{":many", "SELECT authors.id FROM authors JOIN books USING (id) JOIN venues USING (id)", nil, nil, nil},
+	{":one", "SELECT * FROM authors JOIN books USING (id) WHERE authors.name = $1", nil, nil, nil},
 }
 
 var l2CorpusMy = []corpusStmt{
